@@ -8,6 +8,7 @@ CONSTANTS
   Sorted = "none"
   Ops = {"Put", "PutPrev", "PutIfAbsent", "GetOrPut", "PutOrRemove", "PutAtFront", "PutAtBack", "PutBefore", "PutBehind", "PutAtPosition", "GetAndMoveToFront", "GetAndMoveToBack", "Remove", "RemoveGet", "RemoveFirst", "RemoveLast", "MoveToFront", "MoveToBack", "MoveToBefore", "MoveToBehind", "MoveToPosition", "SortByKey", "SortByValue", "SortSelf", "Clear", "Destroy", "EnsureSize", "ShrinkToFit", "ItNew", "ItNewAt", "ItAdv", "ItRet", "ItFlip", "ItDel"}
   PutVals = "any"
+  BigArgs = FALSE
   Wrong = {}
   GHOST = TRUE
   RECORD = FALSE
